@@ -60,9 +60,11 @@ func (p *Poller) Next() GenericDataType {
 		data, ok := p.Diode.TryNext()
 		if !ok {
 			if p.isDone() {
+				VerifAt("poller.next.done", 0)
 				return nil
 			}
 
+			VerifAt("poller.next.empty", 0)
 			time.Sleep(p.interval)
 			continue
 		}
